@@ -22,10 +22,21 @@ Inductive rqry := RPlain (u : nat) (sorted : bool) | RPyvis (u : nat) | RPuml (u
 Inductive rans :=
   | AText (o : option string)
   | ANet (nodes : list (nat * nat)) (edges : list (nat * nat * bool))
-  | ADoc (o : option (list (nat * nat) * list nat))       (* decls (vertex, class code); sorted relation keys *)
+  | ADoc (o : option (list (nat * nat) * list (list nat))) (* decls (vertex, class code); sorted relation rows *)
   | ARaise (e : exn).
 
-Definition rel_key (r : prel) : nat := (r_v1 r * 100 + r_v2 r) * 100 + pcls_code (r_class r).
+(* one relation as a row: ends, the link's configured class, and the configured classes whose
+   title formats name the two ends *)
+Definition rel_row (r : prel) : list nat := [r_v1 r; r_v2 r; pcls_code (r_class r); pcls_code (r_c1 r); pcls_code (r_c2 r)].
+Fixpoint lex_leb (a b : list nat) : bool :=
+  match a, b with
+  | [], _ => true
+  | _ :: _, [] => false
+  | x :: a', y :: b' => if Nat.ltb x y then true else if Nat.ltb y x then false else lex_leb a' b'
+  end.
+Fixpoint lex_insert (x : list nat) (l : list (list nat)) : list (list nat) :=
+  match l with [] => [x] | y :: t => if lex_leb x y then x :: l else y :: lex_insert x t end.
+Definition lex_sort (l : list (list nat)) : list (list nat) := fold_right lex_insert [] l.
 Definition run_rq (s : state) (q : rqry) : rans :=
   match q with
   | RPlain u sorted =>
@@ -35,7 +46,7 @@ Definition run_rq (s : state) (q : rqry) : rans :=
   | RPuml u c =>
       match render_puml (std_conf c) s u with
       | UOk None => ADoc None
-      | UOk (Some d) => ADoc (Some (map (fun x => (d_vertex x, pcls_code (d_class x))) (decls d), sort (map rel_key (rels d))))
+      | UOk (Some d) => ADoc (Some (map (fun x => (d_vertex x, pcls_code (d_class x))) (decls d), lex_sort (map rel_row (rels d))))
       | UErr e => ARaise e
       end
   end.
@@ -45,7 +56,7 @@ Definition rans_eqb (a b : rans) : bool :=
   match a, b with
   | AText x, AText y => opt_eqb String.eqb x y
   | ANet n1 e1, ANet n2 e2 => list_eqb pairn_eqb n1 n2 && list_eqb edge_eqb e1 e2
-  | ADoc x, ADoc y => opt_eqb (fun p q => list_eqb pairn_eqb (fst p) (fst q) && list_eqb Nat.eqb (snd p) (snd q)) x y
+  | ADoc x, ADoc y => opt_eqb (fun p q => list_eqb pairn_eqb (fst p) (fst q) && list_eqb (list_eqb Nat.eqb) (snd p) (snd q)) x y
   | ARaise e, ARaise f => exn_eqb e f
   | _, _ => false
   end.
